@@ -228,24 +228,24 @@ CLAIMS["C04"] = (
 
 # rules added after the seeded-change rounds (DESIGN.md §0): appended to the level text of the property
 ADDED = {
-    "C11": "Also: condition_parser::parse read end to end on 4406 #if conditions against an independently written evaluator of the same C grammar.",
-    "C09": "Also: format_literal composed with the lexer's token function, both read by the finite-map reader: a literal of every kind, printed for every target, lexes back to one token of the same kind and value; printer wrappers (format_expression) are recursion events of the parenthesis rules. Context rule: for the eight places where an expression is printed outside an expression (initialiser, default argument, attribute argument, array size, template argument, enum value, statement, for-init) the operators switched off by the parser's terminator there are parenthesised by the printer at that site; print helpers that choose the side from the child are read per child kind. Statement rule: format_statement composed with parse_statement on 49 model statement trees (every kind, every shape of a for header, labels, nested conditionals) is the identity.",
-    "C01": "Also: the C09 parenthesis / operand-side / adjacency rules and the C15 name-uniqueness and qualified-reference rules re-evaluated for the HLSL path; crate-level inventory of skipping / reordering sequence operations; index ranges start at 0. Exporter tables: HLSL generate_expression composed with the typer's parse_expr_unchecked on the typed-expression model (export then re-elaborate gives the same node and type); generate_variable_definition / generate_global_variable / generate_function_param composed with the typer's parse_localtype / parse_globaltype / parse_input_modifier / parse_interpolation_modifier (storage class, precise, const, in/out, interpolation survive); the exporter's verdict is the same for the plain and the const variant of every model expression. generate_statement read as a table (same statement kind, same parts in order); an operand with an effect (`i++`) is exported exactly once wherever it stands.",
-    "C02": "Also: generate_function_and_trampoline read as a decision table (160 cases); operands repeated by a struct cast are leaves of ir::Expression; the C01 additions for the MSL path. The MSL exporter's verdict (exported / refused with reason) is the same for the plain and the const variant of every expression of the typed-expression model; `static` is printed iff the local is static. generate_statement read as a table; an operand with an effect is exported exactly once wherever it stands (struct casts included).",
-    "C03": "Also: swizzle value-category functions over all slot sequences of length <= 4; ImplicitConversion::find's table for an Lvalue destination (no conversion across element types or dimensions). Elaboration read as tables: parse_expr_binop / parse_expr_unaryop / parse_expr_ternary, the member and subscript arms of parse_expr_unchecked, write_function, the return arm of parse_statement and parse_initializer are evaluated by the finite-map reader over a matrix of operand types (scalars, vectors, matrices, enum, struct, arrays, every object type; plain / const / volatile; lvalue / rvalue), and every accepted node is typed again by rssl's own IR typing rule (Expression::get_type + IntrinsicOp::get_return_type, asserts included): no abort, same type as reported, operands in order, arguments / returned values / initialisers of exactly the declared type, out/inout arguments mutable lvalues, parts of const values const.",
-    "C04": "Also: NameMap uniqueness / generated-names-visible-to-locals rules under this property. Expression- and declaration-level fixpoint read as tables: every typed expression of the operand model exported by generate_expression and re-elaborated by parse_expr_unchecked gives the same node and type (about 1800 round trips); declarations likewise through parse_localtype / parse_globaltype / parse_input_modifier / parse_interpolation_modifier; the places where an expression is printed outside an expression parenthesise what the parser's terminator switches off there. Statement-level fixpoint: format_statement composed with the parser's parse_statement on model statement trees; qualified references to entities in nested namespaces name them as declared.",
-    "C05": "Also: the numthreads scan of add_stage (whole attribute list, no early exit, argument order). add_stage read as a table over every ShaderStage and every position of [numthreads] in the attribute list.",
+    "C11": "Also: condition_parser::parse read end to end on 4406 #if conditions against an independently written evaluator of the same C grammar. An #if left open by an included file survives in the including file's chain or is refused.",
+    "C09": "Also: format_literal composed with the lexer's token function, both read by the finite-map reader: a literal of every kind, printed for every target, lexes back to one token of the same kind and value; printer wrappers (format_expression) are recursion events of the parenthesis rules. Context rule: for the eight places where an expression is printed outside an expression (initialiser, default argument, attribute argument, array size, template argument, enum value, statement, for-init) the operators switched off by the parser's terminator there are parenthesised by the printer at that site; print helpers that choose the side from the child are read per child kind. Statement rule: format_statement composed with parse_statement on 49 model statement trees (every kind, every shape of a for header, labels, nested conditionals) is the identity. Declaration rule: print o parse is the identity on function parameters, variable definitions, globals, enums, structs, constant buffers and function definitions (opaque types / declarators / expressions).",
+    "C01": "Also: the C09 parenthesis / operand-side / adjacency rules and the C15 name-uniqueness and qualified-reference rules re-evaluated for the HLSL path; crate-level inventory of skipping / reordering sequence operations; index ranges start at 0. Exporter tables: HLSL generate_expression composed with the typer's parse_expr_unchecked on the typed-expression model (export then re-elaborate gives the same node and type); generate_variable_definition / generate_global_variable / generate_function_param composed with the typer's parse_localtype / parse_globaltype / parse_input_modifier / parse_interpolation_modifier (storage class, precise, const, in/out, interpolation survive); the exporter's verdict is the same for the plain and the const variant of every model expression. generate_statement read as a table (same statement kind, same parts in order); an operand with an effect (`i++`) is exported exactly once wherever it stands. generate_literal on enum constants of a two-enum module names the constant's own enumerator.",
+    "C02": "Also: generate_function_and_trampoline read as a decision table (160 cases); operands repeated by a struct cast are leaves of ir::Expression; the C01 additions for the MSL path. The MSL exporter's verdict (exported / refused with reason) is the same for the plain and the const variant of every expression of the typed-expression model; `static` is printed iff the local is static. generate_statement read as a table; an operand with an effect is exported exactly once wherever it stands (struct casts included). analyse_globals read on one-global modules: mutable globals are threaded by reference in their address space; generate_literal on enum constants.",
+    "C03": "Also: swizzle value-category functions over all slot sequences of length <= 4; ImplicitConversion::find's table for an Lvalue destination (no conversion across element types or dimensions). Elaboration read as tables: parse_expr_binop / parse_expr_unaryop / parse_expr_ternary, the member and subscript arms of parse_expr_unchecked, write_function, the return arm of parse_statement and parse_initializer are evaluated by the finite-map reader over a matrix of operand types (scalars, vectors, matrices, enum, struct, arrays, every object type; plain / const / volatile; lvalue / rvalue), and every accepted node is typed again by rssl's own IR typing rule (Expression::get_type + IntrinsicOp::get_return_type, asserts included): no abort, same type as reported, operands in order, arguments / returned values / initialisers of exactly the declared type, out/inout arguments mutable lvalues, parts of const values const. parse_function_body on a model function: parameter variables, scope entries and FunctionParam carry the type written on the parameter (modifiers included).",
+    "C04": "Also: NameMap uniqueness / generated-names-visible-to-locals rules under this property. Expression- and declaration-level fixpoint read as tables: every typed expression of the operand model exported by generate_expression and re-elaborated by parse_expr_unchecked gives the same node and type (about 1800 round trips); declarations likewise through parse_localtype / parse_globaltype / parse_input_modifier / parse_interpolation_modifier; the places where an expression is printed outside an expression parenthesise what the parser's terminator switches off there. Statement-level fixpoint: format_statement composed with the parser's parse_statement on model statement trees; qualified references to entities in nested namespaces name them as declared. Declaration-level fixpoint: print o parse on function parameters, variable definitions, globals, enums, structs, constant buffers and function definitions.",
+    "C05": "Also: the numthreads scan of add_stage (whole attribute list, no early exit, argument order). add_stage read as a table over every ShaderStage and every position of [numthreads] in the attribute list. build_pipeline read as a table: text and description from the exporter, one stage per pipeline stage.",
     "C06": "Also: LanguageBinding.set / .index are the register annotation's own space / slot index (value-origin trace). parse_rootdefinition_globalvariable read on 216 statements of 1-3 declarators: every global gets the register binding of its own declarator, overridden only by the attributes.",
     "C07": "Also: hash-order loops with cross-iteration state or last-writer-wins assignments, including loops over a Vec filled in hash order. Leaving a loop over a Vec that was filled in hash order (return / break / ?) is order-sensitive.",
-    "C08": "Also: str range-index bounds are character boundaries by construction; admitted scalar types vs handled constant kinds (contradiction rule). The typer's elaboration tables (C03) are read again for aborts: no operand combination reaches a panic, and no accepted node is one whose IR type can only be asked by aborting; parse_pipeline on 280 model property lists; walk_into_scopes on a model scope tree. Every re-entry of apply_single_macro into the expander carries the disabled set; pointer-range assertions on lexer error slices against constructors that carry a foreign slice (contradiction rule). Both location decoders of the SourceManager evaluated for every position of a three-file model (end-of-file slots and one past the end included): none aborts.",
-    "C10": "Also: the location decoders of SourceManager (C14.line rules) under 'every diagnostic position lies inside the file'. literal_int on 369 integer spellings (three radices, boundary values up to 25 digits, every suffix) and literal_float on 3969 decimal spellings (IEEE arithmetic of the reader = rustc's target) against exact / correctly rounded values; the C09 print-and-lex-back table under this property ('the value appears unchanged in the output').",
-    "C12": "Also: the include cache is keyed by the requested name (one file id per name, #pragma once per id). apply_macros read on 45 model token lists over ten macro sets against textual substitution written in the rule (object- and function-like macros, nested and parenthesised arguments, recursion cut-off, hand-over of a function-like name to the following text, argument-count and unterminated-list errors). Self-reference through the argument of a function-like macro (two more macro sets): the expansion terminates.",
-    "C13": "Also: the literal folding fast path of ImplicitConversion::apply agrees with evaluate_cast. evaluate_operator is read as a function: 8 unary / 20 binary operators x 9 constant kinds x sample values (plain and enum-wrapped, about 6500 folded evaluations) against the run-time semantics written in the rule; refusing to fold is always allowed. Context::end_enum read on model enums: an accepted enum keeps every enumerator's value (no wrap into the underlying type), sets that fit int or uint are accepted.",
-    "C14": "Also: comment scanners start after their opener; no function outside the lexer and Token::is_whitespace singles out Whitespace or Comment; both location decoders select the file with one strict comparison.",
-    "C15": "Also: generated global names are published to the set the local phase consults; ScopedName helpers derive from NameMap::get_name_qualified. NameMap::get_name_qualified read on a three-deep namespace model (path = namespaces outermost first, then the name).",
-    "C16": "Also: opponents are skipped only for being the candidate itself; a function id enters a scope only where it is created and unconditionally. find_function_type evaluated as a whole on 819 scripted overload lists, and overload resolution end to end (write_function .. ImplicitConversion::find / get_rank, nothing scripted) on the model type registry: every set of two or three one-parameter overloads over 8 types and every pair of two-parameter overloads, in every declaration order, for 13 argument types - same verdict in every order, an exact match wins.",
-    "C17": "Also: exporters read module.pipelines only as pipelines[<variable>].",
-    "C18": "Also: every front-end call is reachable for every Target value (per-value edge feasibility with constant propagation through matches!); both analyse_bindings read type layers after remove_modifier. compile() read up to its preprocessor call for every Target x buffer-address flag: the predefined macros differ only in the values of RSSL_TARGET_*. analyse_bindings of both exporters evaluated on one-resource modules (every object type x six shapes x bindless): name, descriptor kind, count, slot and bindless flag do not depend on the target.",
+    "C08": "Also: str range-index bounds are character boundaries by construction; admitted scalar types vs handled constant kinds (contradiction rule). The typer's elaboration tables (C03) are read again for aborts: no operand combination reaches a panic, and no accepted node is one whose IR type can only be asked by aborting; parse_pipeline on 280 model property lists; walk_into_scopes on a model scope tree. Every re-entry of apply_single_macro into the expander carries the disabled set; pointer-range assertions on lexer error slices against constructors that carry a foreign slice (contradiction rule). Both location decoders of the SourceManager evaluated for every position of a three-file model (end-of-file slots and one past the end included): none aborts. Layout checker on degenerate element types (structs without data): no abort; #include nesting is bounded (the directive evaluated at depth 0 and a million files deep).",
+    "C10": "Also: the location decoders of SourceManager (C14.line rules) under 'every diagnostic position lies inside the file'. literal_int on 369 integer spellings (three radices, boundary values up to 25 digits, every suffix) and literal_float on 3969 decimal spellings (IEEE arithmetic of the reader = rustc's target) against exact / correctly rounded values; the C09 print-and-lex-back table under this property ('the value appears unchanged in the output'). TokenStream::read_to_end and unlex evaluated on thirteen model texts at two base locations: the token spans tile the text and unlex gives it back.",
+    "C12": "Also: the include cache is keyed by the requested name (one file id per name, #pragma once per id). apply_macros read on 45 model token lists over ten macro sets against textual substitution written in the rule (object- and function-like macros, nested and parenthesised arguments, recursion cut-off, hand-over of a function-like name to the following text, argument-count and unterminated-list errors). Self-reference through the argument of a function-like macro (two more macro sets): the expansion terminates. `##` evaluated end to end (unlexer, source manager, lexer) on 21 token pairs against the lexing of the pasted text; FileLoader::load / mark_as_pragma_once as a state machine on a diamond of includes; eight more #define layouts.",
+    "C13": "Also: the literal folding fast path of ImplicitConversion::apply agrees with evaluate_cast. evaluate_operator is read as a function: 8 unary / 20 binary operators x 9 constant kinds x sample values (plain and enum-wrapped, about 6500 folded evaluations) against the run-time semantics written in the rule; refusing to fold is always allowed. Context::end_enum read on model enums: an accepted enum keeps every enumerator's value (no wrap into the underlying type), sets that fit int or uint are accepted. parse_rootdefinition_enum on ten enumerator lists: an implicit enumerator is the previous value plus one in the previous value's type.",
+    "C14": "Also: comment scanners start after their opener; no function outside the lexer and Token::is_whitespace singles out Whitespace or Comment; both location decoders select the file with one strict comparison. Layout inside a macro's parameter list does not change the definition (Macro::parse table).",
+    "C15": "Also: generated global names are published to the set the local phase consults; ScopedName helpers derive from NameMap::get_name_qualified. NameMap::get_name_qualified read on a three-deep namespace model (path = namespaces outermost first, then the name). Who may read a source name: per exporter the IR entity kinds whose name is read without the NameMap are a frozen, reasoned set.",
+    "C16": "Also: opponents are skipped only for being the candidate itself; a function id enters a scope only where it is created and unconditionally. find_function_type evaluated as a whole on 819 scripted overload lists, and overload resolution end to end (write_function .. ImplicitConversion::find / get_rank, nothing scripted) on the model type registry: every set of two or three one-parameter overloads over 8 types and every pair of two-parameter overloads, in every declaration order, for 13 argument types - same verdict in every order, an exact match wins. get_struct_member_expression on a model struct in 18 declaration orders: every overload of the name is a candidate.",
+    "C17": "Also: exporters read module.pipelines only as pipelines[<variable>]. build_pipeline read as a table (select, bind, export on the pipeline's own copy, in this order).",
+    "C18": "Also: every front-end call is reachable for every Target value (per-value edge feasibility with constant propagation through matches!); both analyse_bindings read type layers after remove_modifier. compile() read up to its preprocessor call for every Target x buffer-address flag: the predefined macros differ only in the values of RSSL_TARGET_*. analyse_bindings of both exporters evaluated on one-resource modules (every object type x six shapes x bindless): name, descriptor kind, count, slot and bindless flag do not depend on the target. build_pipeline read as a table for every target: same stages, thread-group sizes and pipeline state; for_spirv only for Vulkan.",
     "C19": "Also: each layout is rounded with its own alignment and those two layouts are the ones compared.",
 }
 
